@@ -34,6 +34,27 @@ HARNESSES.append(H("close_frees", "C16/close_frees.c", link=["common"], stubs=["
 for h in oc_harnesses():
     h.tiers = ("thorough",)      # whole-parser + close leak check: does not finish within the quick budget (see DESIGN)
     HARNESSES.append(h)
+SEQS = [("aiff", "aiff.c", "aiff_open", "SF_FORMAT_AIFF", [(1, {}), (2, {}), (3, {}), (4, {}), (5, {}), (6, {"CTYPE": '"NONE"'}), (6, {"CTYPE": '"sowt"'}), (6, {"CTYPE": '"fl32"'}),
+                                                             (6, {"CTYPE": '"ulaw"'}), (7, {}), (8, {}), (1, {"TRUNC_AT": 70}), (4, {"TRUNC_AT": 61})])]
+def seq_harnesses():
+    out = []
+    for tag, cfile, openfn, fmt, seqs in SEQS:
+        for seq, extra in seqs:
+            d = {"CONTAINER_FILE": '"%s"' % cfile, "OPEN_FN": openfn, "FMT": fmt, "SEQ": seq, "MF_CAP": 192, "MF_MAXIO": 200, "POOL": 96, "SNP_MAX": 40, "PSF_MEMSET_MAX": 64,
+                 "LIBSNDFILE_VERIF_BUFFER_LEN": 64, "STUB_APPEND_SNPRINTF": 1}
+            d.update(extra)
+            name = "chunkseq.%s.s%d%s" % (tag, seq, "".join("." + str(v).strip('"').lower() for v in extra.values()))
+            out.append(H(name, "C03/chunkseq.c", link=[u for u in ALL_UNITS if u + ".c" != cfile], stubs=["psf_log_printf", "psf_memset", "append_snprintf"], defines=d,
+                         unwind=12, unwindset=["psf_fread.0:201", "psf_memset.0:65", "strlen.0:70", "strcmp.0:70", "snprintf.0:41", "snprintf.1:41", "psf_binheader_readf.0:20",
+                                               "psf_binheader_readf.1:40", "memcmp.0:24", "SYM.0:97", "ZERO.0:70", "main.0:98", "strncpy.0:260", "psf_sanitize_string.0:260", "strcpy.0:260", "psf_strlcpy.0:260", "aiff_read_header.6:258", "aiff_read_header.5:4"],
+                         checks="leak_np" if seq in (1, 2, 3, 4) else "leak", fsa=480,
+                         # measured: s2 s3 s7 and the truncated variants 15..30 s; s1 s4 ~360 s; s5 s6 s8 (symbolic sample size / compression
+                         # type -> every codec init explored) no verdict in 420 s: kept for the record in no registered tier
+                         tiers=(("quick", "thorough") if (seq in (2, 3, 7) or "TRUNC_AT" in extra) else ("thorough",) if seq in (1, 4) else ()), include_env=("log_stub", "memfile", "memset_model", "snprintf_model", "libm_model"), timeout=600,
+                         functions=[openfn, cfile + " chunk parsers", "psf_binheader_readf", "psf_store_read_chunk", "codec init", "psf_close"],
+                         bounds="chunk sequence %d of harness/C03/seqs.h (ids, declared sizes on the grid; every content byte symbolic; counts the parser loops on <= 2..3)%s" % (
+                             seq, "; file truncated at byte %d" % extra["TRUNC_AT"] if "TRUNC_AT" in extra else "")))
+    return out
 def alac_harnesses():
     out = []
     for faulty, ch, npk in ((0, 1, 0), (0, 1, 1), (0, 2, 2), (1, 1, 1), (1, 1, 0)):
@@ -48,5 +69,7 @@ def alac_harnesses():
                             % (ch, npk) + ("; every output write/seek may fail (fault schedule)" if faulty else "")))
     return out
 HARNESSES += alac_harnesses()
+HARNESSES += seq_harnesses()
 HARNESSES += [h for h in _load("C14").HARNESSES if h.name == "fileio.ownership"]
-META = {"assumptions": ["E-memfile", "allocation never fails (failure of malloc itself is outside this harness)"], "outside": ["setters + close (H3)", "ALAC temp file, SD2 resource fork"]}
+META = {"assumptions": ["E-memfile", "E-stdio ghost stream for the ALAC spool file", "allocation never fails (failure of malloc itself is outside this harness)"],
+        "outside": ["setters + close (H3)", "SD2 resource fork", "chunked parsers other than the listed AIFF sequences", "the ALAC bit-stream library (contract stub)"]}
